@@ -349,7 +349,7 @@ def poison(ctrl, rng):
     """Scribble over every field of the persistent state that the model says a run re-initialises before
     reading (or never reads).  Returns nothing; the controller must still produce identical runs."""
     import numpy as np
-    for S in ctrl.MS:
+    for idx, S in enumerate(ctrl.MS):
         st = S.status
         st.iter = POISON + rng.randrange(50)
         st.stage = rng.choice(['DONE', 'IT_FINE', 'IT_CHECK'])
@@ -364,7 +364,7 @@ def poison(ctrl, rng):
         st.diff_old_loc = 1e300
         st.diff_first_loc = 1e300
         st.__dict__['restart'] = True
-        S.prev = None
+        S.prev = ctrl.MS[(idx + 1) % len(ctrl.MS)]       # a wrong link (the NEXT step)
         for L in S.levels:
             ls = L.status
             ls.residual = 1e300
